@@ -5,6 +5,63 @@ import clusterlib as cl
 LABELS = ['C02.OnGraph', 'C02.NeedsMaster', 'C02.SlaveAfterMaster']
 
 
+def running_failure_scenarios(tier, seed, tail):
+    """A process whose running_failure_strategy is RESTART / SHUTDOWN crashes at every micro-step of a late join (the
+    Master passes through ELECTION when the joiner is activated): whatever the instant, the published states must
+    stay on the documented graph."""
+    from recorder import Driver
+    out = []
+    for strategy in ('RESTART', 'SHUTDOWN'):
+        rules = ('<?xml version="1.0" encoding="UTF-8" standalone="no"?><root><application name="app">'
+                 f'<programs><program name="r"><identifiers>*</identifiers><running_failure_strategy>{strategy}'
+                 '</running_failure_strategy></program></programs></application></root>')
+        cfg = cl.Config(n=3, sync=('TIMEOUT',))
+        traces, recs = [], {}
+        k = 0
+        delays = range(0, 70, 6 if tier == 'quick' else 2)
+        for delay in delays:
+            c = cl.make_cluster(cfg, programs=[{'name': 'r', 'groups': ['app']}], rules_xml=rules)
+            c.auto_orders = True
+            d = Driver(c)
+            try:
+                d.boot('n1')
+                d.boot('n2')
+                for _ in range(8):
+                    for n in ('n1', 'n2'):
+                        d.tick(n)
+                        d.drain()
+                d.rpc('n2', 'startProcess', 'app:r', False, ns='supervisor')
+                for _ in range(3):
+                    for n in ('n1', 'n2'):
+                        d.tick(n)
+                        d.drain()
+                d.boot('n3')
+                micro = 0
+                crashed = False
+                for _ in range(14):
+                    for n in list(c.nodes):
+                        if not c.nodes[n].alive:
+                            continue
+                        steps = [lambda n=n: d.tick(n)]
+                        while steps:
+                            steps.pop(0)()
+                            micro += 1
+                            if micro >= delay and not crashed and c.nodes['n2'].alive:
+                                crashed = True
+                                d.env('exit', 'n2', 'app:r', 3)
+                            pend = sorted(c.pending())
+                            if pend:
+                                steps.append(lambda pr=pend[0]: d.proxy(*pr))
+                cl.fair_tail(d, cfg, 4)
+            finally:
+                c.close()
+            traces.append(cl.mon_trace(k, d.rec, cfg, False, True))
+            recs[k] = d.rec
+            k += 1
+        out.append((cfg, traces, recs))
+    return out
+
+
 def main(tier, seed, replay=None):
     if replay:
         return cc.replay_file(replay)
@@ -31,4 +88,4 @@ def main(tier, seed, replay=None):
                 cl.Config(n=2, crash=1, restart=1, user=3, sync=('USER',))]
     return cc.run('C02', tier, seed, LABELS, [], e1, [], ['StepsC02'], sim, rnd,
                   n_beh=48 if q else 400, beh_depth=150, n_rnd=40 if q else 400, rnd_steps=250,
-                  e1_timeout=600 if q else 2400)
+                  e1_timeout=600 if q else 2400, extra_scenarios=[running_failure_scenarios])
